@@ -128,6 +128,52 @@ def r_to_dict(ctx: Ctx, rt: RT, prop):
                    nontrivial_key=("ctor", config))
 
 
+def r_registered_material(ctx: Ctx, rt: RT, prop):
+    """constructing from a dictionary whose material is already registered: the isotherm's material carries the values of the
+    dictionary (the document), also for properties the registered material had with another value"""
+    ctx.rule("RT-dict (registered material): BaseIsotherm(**d) with d['material'] a dictionary naming a registered material yields "
+             "material properties equal to the dictionary's (a re-imported isotherm carries the document's values)")
+    I = rt.I
+    bi = rt.model.cls("pygaps.core.baseisotherm.BaseIsotherm")
+    mc = rt.model.cls("pygaps.core.material.Material")
+    init = bi.find_method("__init__")
+    saved = dict(I.overrides)
+    try:
+        def thunk(I):
+            iso = rt.mk_iso("base", "abs-molar-K")
+            d = rt.to_dict(iso)
+            I.overrides.pop("pygaps.core.baseisotherm.BaseIsotherm", None)
+            reg = Obj(cls=mc, label="registered", attrs={"name": iso.attrs["_material"].attrs["name"],
+                                                         "properties": {"density": Num.atom("rho_registry"), "regonly": Tok("t_regonly")}})
+            I.overrides["pygaps.core.material.Material.find"] = lambda I, fi, env, n: reg
+
+            def notfound(I, fi, env, n):
+                from ..absint import ExcVal, Raised
+                raise Raised(ExcVal(["ParameterError", "pgError", "Exception", "BaseException"], node=n, msg="not in list"))
+            I.overrides["pygaps.core.adsorbate.Adsorbate.find"] = notfound
+            I.overrides["pygaps.core.adsorbate.Adsorbate"] = lambda I, ci, a, k, n: Obj(kind="Ads", attrs={"a": a, "k": k})
+            new = Obj(cls=bi, label="new")
+            I.call_func(init, [], dict(d), None, self_obj=new)
+            return iso, new
+        for oc, _ in rt.explore(thunk):
+            if oc.kind != "ok":
+                ctx.ob(False, Finding(f"{prop}.RT-dict", init.where, f"registered-material|raises:{oc.exc.name}", f"BaseIsotherm(**d) raises {oc.exc}"))
+                continue
+            iso, new = oc.value
+            mat = new.attrs.get("_material")
+            props = mat.attrs.get("properties") if isinstance(mat, Obj) else None
+            want = iso.attrs["_material"].attrs["properties"]
+            ok = isinstance(props, dict) and all(veq(I, props.get(k), v) for k, v in want.items())
+            ctx.ob(ok, Finding(f"{prop}.RT-dict", bi.find_setter("material").where if hasattr(bi, "find_setter") and bi.find_setter("material") else init.where,
+                               "registered-material|properties",
+                               f"dictionary material properties {I.describe(want)} on a registered material holding "
+                               f"{{density: rho_registry, regonly: ...}} give {I.describe(props)}: the document's values must win"),
+                   nontrivial_key=("registered-material",))
+    finally:
+        I.overrides.clear()
+        I.overrides.update(saved)
+
+
 def r_model_dict(ctx: Ctx, rt: RT, prop):
     ctx.rule("RT-model: IsothermBaseModel(**model.to_dict()) restores parameters, ranges and rmse unchanged; to_dict emits "
              "name, rmse, parameters, pressure_range, loading_range")
@@ -204,3 +250,34 @@ def r_branch_canon(ctx: Ctx, rt: RT, prop):
     ctx.ob(not others, Finding(f"{prop}.B-canon", ci.where if hasattr(ci, "where") else init.where, f"branch-column-written-outside-init:{others}",
                                f"data_raw['branch'] is also written in {others}: the normalisation in __init__ no longer covers every stored value"),
            nontrivial_key=("b-canon-others",))
+
+
+def r_column_order(ctx: Ctx, rt: RT, prop):
+    """the stored table has a canonical column layout whatever layout the caller's table had (the identifier hashes the table
+    column by column, exporters sort keys): interpreted on PointIsotherm.__init__ with a frame whose extra columns are unsorted"""
+    ctx.rule("ID-cols: PointIsotherm.__init__ stores the columns as [pressure, loading, branch, *sorted(extra columns)] for any input order")
+    I = rt.I
+    ci = rt.model.cls("pygaps.core.pointisotherm.PointIsotherm")
+    init = ci.find_method("__init__")
+    saved = dict(I.overrides)
+    I.overrides.pop("pygaps.core.pointisotherm.PointIsotherm", None)
+    I.overrides["pygaps.core.baseisotherm.BaseIsotherm.__init__"] = lambda I, fi, env, n: None
+    try:
+        for order in (("zeta", "pressure", "alpha", "loading", "mid"), ("pressure", "loading", "mid", "alpha", "zeta")):
+            def thunk(I, order=order):
+                frame = MiniFrame({c: [Num.atom(f"{c}{i}") for i in range(3)] for c in order})
+                new = Obj(cls=ci, label="new", attrs={})
+                I.call_func(init, [], {"isotherm_data": frame, "pressure_key": "pressure", "loading_key": "loading", "branch": "ads"}, None, self_obj=new)
+                return new
+            for oc, _ in rt.explore(thunk):
+                if oc.kind != "ok":
+                    raise AnalysisError(f"PointIsotherm.__init__ on a plain table: {oc.exc}")
+                got = list(oc.value.attrs["data_raw"].cols)
+                want = ["pressure", "loading", "branch", "alpha", "mid", "zeta"]
+                ctx.ob(got == want, Finding(f"{prop}.ID-cols", init.where, f"PointIsotherm.__init__|column-order|input={','.join(order)}",
+                                            f"a table given with columns {list(order)} is stored as {got}; required {want}: the identifier (and every "
+                                            "comparison with a re-imported copy, whose columns arrive sorted) depends on the column layout"),
+                       nontrivial_key=("cols", order))
+    finally:
+        I.overrides.clear()
+        I.overrides.update(saved)
